@@ -55,9 +55,9 @@ def _scn(draw):
     elif tree_extra == "deep" and "d1" not in used:
         scn["tree"]["d1"] = {"d2": {"d3": {"d4": {"leaf": "x"}, "f3": "y"}, "f2": "z"}, "f1": "w"}
     pre = []
-    if tree_extra:
-        dirs = [d for d in gen.tree_dirs(scn["tree"]) if isinstance(_node(scn["tree"], d), dict)]
-        picks = draw(st.lists(st.sampled_from(dirs), min_size=1, max_size=4, unique=True))
+    dirs = [d for d in gen.tree_dirs(scn["tree"]) if isinstance(_node(scn["tree"], d), dict)]
+    if tree_extra and dirs:
+        picks = draw(st.lists(st.sampled_from(dirs), min_size=1, max_size=min(4, len(dirs)), unique=True))
         for d in picks:
             pre.append({"op": "create", "root": d, "formats": draw(gen.formats(2)), "flags": []})
     scn["steps"] = pre + scn["steps"]
